@@ -55,3 +55,54 @@ def cal_range(cal_id):
     except AttributeError:
         pass
     return lo, hi, consistent
+
+
+# keyword call forms ------------------------------------------------------------------------------------------------
+def kw_ok(fn, names) -> bool:
+    """True when every documented parameter name can be passed by keyword to fn (checked once at start-up on whatever
+    tree is under test: a name that is not accepted is dropped by the caller, never a failure)"""
+    import inspect
+    try:
+        params = inspect.signature(fn).parameters
+    except (TypeError, ValueError):
+        return False
+    for n in names:
+        p = params.get(n)
+        if p is None or p.kind is inspect.Parameter.POSITIONAL_ONLY:
+            return False
+    return True
+
+
+def kw_forms(fn, names, args):
+    """the keyword spellings of fn(*args): all keywords in documented order and in reverse order (same call, other
+    order of the keywords); empty when the documented names are not accepted"""
+    if len(names) != len(args) or not kw_ok(fn, names):
+        return []
+    pairs = list(zip(names, args))
+    forms = [lambda: fn(**dict(pairs))]
+    if len(pairs) > 1:
+        forms.append(lambda: fn(**dict(reversed(pairs))))
+    return forms
+
+
+def make_kwf(kw_names, classes):
+    """kwf(acc, 'Class.method', *args, obj=None) -> list of thunks calling the method with its documented parameter names as
+    keywords; [] (and a 'degraded' note) when the tree under test does not accept those names by keyword"""
+    import functools
+
+    @functools.cache
+    def names_of(qual):
+        cname, meth = qual.split(".")
+        fn = getattr(classes[cname], meth, None)
+        names = kw_names[qual]
+        return names if fn is not None and kw_ok(fn, names) else None
+
+    def kwf(acc, qual, *args, obj=None):
+        names = names_of(qual)
+        if names is None:
+            acc.degrade("keyword form of %s%r not accepted by this tree: skipped" % (qual, kw_names[qual]))
+            return []
+        cname, meth = qual.split(".")
+        return kw_forms(getattr(obj if obj is not None else classes[cname], meth), names, args)
+
+    return kwf
